@@ -26,7 +26,11 @@ logger = logging.getLogger(__name__)
 #------------------------------------------------------------------------------
 
 def _concat(arrs, axis=0, dtype=None):
-    dtype = dtype or arrs[0].dtype
+    if dtype is None:
+        dtype = arrs[0].dtype
+        if all(np.issubdtype(arr.dtype, np.floating) for arr in arrs):
+            # Probes stored with different floating point precisions: keep the widest one.
+            dtype = np.result_type(*[arr.dtype for arr in arrs])
     return np.concatenate(arrs).astype(dtype)
 
 
@@ -248,7 +252,9 @@ class Merger(object):
         n_channels = sum(tmp.shape[2] for tmp in templates_l)
         shape = (n_templates, n_samples, n_channels)
 
-        np.save(path, np.empty(shape, dtype=templates_l[0].dtype))
+        # Probes stored with different floating point precisions: keep the widest one.
+        dtype = np.result_type(*[tmp.dtype for tmp in templates_l])
+        np.save(path, np.empty(shape, dtype=dtype))
         offset = 0
         with open(path, 'r+b') as fid:
             fid.seek(8)
@@ -259,7 +265,7 @@ class Merger(object):
                 j0 = j1
                 j1 = j0 + templates_l[i].shape[2]
                 for it in np.arange(templates_l[i].shape[0]):
-                    one_template = np.zeros((n_samples, n_channels), dtype=templates_l[0].dtype)
+                    one_template = np.zeros((n_samples, n_channels), dtype=dtype)
                     one_template[:, j0:j1] = templates_l[i][it, :]
                     fid.write(one_template.tobytes())
 
